@@ -422,6 +422,8 @@ Proof.
         assert (ii = i) by (eapply (I10 _ HI); [eapply holds_held; eauto | rewrite Hp; reflexivity]). subst.
         rewrite Hp in Hh. simpl in Hh. destruct Hh; subst. reflexivity.
       * right. eauto.
-    + intros j cc ww y Hj Hy Hdd. unfold upd in Hj. destruct (Nat.eqb_spec j i); [discriminate|]. eauto.
+    + intros cc y ww ii Hy Hr [E|Hin]; [|eapply Hr5; eauto].
+      inversion E; subst. apply Hns. eapply Hr7; eauto.
+    + intros j cc ww y Hj Hy Hdd. unfold upd in Hj. destruct (Nat.eqb_spec j i); simpl in Hj; [discriminate|]. eauto.
     + intros cc y ww Hy Hr. right. eauto.
 Qed.
